@@ -110,7 +110,9 @@ KNOWN_PREDICATES = {"C01-literal-overlap": lambda case, f: any(__import__("harne
 
 
 def model_bytes(ctx, cases):
-    """native / Foam: the bytes of the file after every write, model vs implementation"""
+    """native / Foam: the bytes of the file after every write, model vs implementation.
+    The source dict is handed to the model with its strings already typed by CPython (a float read from a string is
+    re-spelled by repr(), which the literal-carrying model cannot know; parse_value itself is C04's business)."""
     dictIO = native.dictio()
     for c in cases:
         fmt = c["fmt"]
@@ -127,7 +129,7 @@ def model_bytes(ctx, cases):
                 except Exception as e:  # noqa: BLE001
                     itext = None
                 line = (f"write_text {wire.enc_bool(fmt == 'foam')} {wire.enc_str(str(target))} "
-                        f"{wire.enc_opt(mtext, wire.enc_str)} {wire.enc_bool(mode == 'a')} {wire.enc_tree(d)}")
+                        f"{wire.enc_opt(mtext, wire.enc_str)} {wire.enc_bool(mode == 'a')} {wire.enc_tree(native.normalise(d))}")
                 ml = wire.run_model([line])[0]
                 ctx.corr_compared += 1
                 if ml.startswith("ok "):
